@@ -34,6 +34,10 @@ func (n1 jsonNumber) Equals(node JsonNode, metadata ...Metadata) bool {
 }
 
 func (n jsonNumber) hashCode(metadata []Metadata) [8]byte {
+	if n == 0 {
+		// Negative zero equals zero and must hash like it.
+		n = 0
+	}
 	a := make([]byte, 0, 8)
 	b := bytes.NewBuffer(a)
 	binary.Write(b, binary.LittleEndian, n)
